@@ -92,14 +92,14 @@ type Conn struct {
 
 // Stats counts what happened at the transport seam.
 type Stats struct {
-	Publishes     int
-	PublishErrors int
-	Subscribes    int
-	SubErrors     int
-	Delivered     int
-	SlowDrops     int
-	Lost          int
-	AfterClose    int
+	Publishes      int
+	PublishErrors  int
+	Subscribes     int
+	SubErrors      int
+	Delivered      int
+	SlowDrops      int
+	Lost           int
+	AfterClose     int
 	DeliveryPanics int
 }
 
